@@ -46,6 +46,11 @@ def run_case(draw):
         return {"api": api, "config": cfg, "stop": stop}
     api = draw(runs.api(max_ops=4))
     cfg = draw(runs.config())
+    if draw(st.integers(0, 3)) == 0:
+        # a transport error for part of one operation's input space (a pure function of the request): errors are outcomes too,
+        # and with unique inputs the request that caused one must not be sent again
+        api["ops"][draw(st.integers(0, len(api["ops"]) - 1))]["drop_negative"] = True
+        cfg["unique_inputs"] = True
     return {"api": api, "config": cfg, "stop": stop}
 
 
@@ -60,7 +65,15 @@ def check_run(ctx: Ctx, inp) -> None:
     from vfw.harness import engine_run, loopback
 
     api, cfg, stop = inp["api"], inp["config"], inp["stop"]
-    server = loopback.shared(runs.make_script(api))
+    base_script = runs.make_script(api)
+    dropping = {op["path"] for op in api["ops"] if op.get("drop_negative")}
+
+    def script(req, ordinal):
+        if req.path in dropping and "q=-" in req.query:
+            return loopback.Reply(close=True)
+        return base_script(req, ordinal)
+
+    server = loopback.shared(script)
     server.probe_reply = runs.probe_reply(api)
     record = engine_run.run_engine(runs.build_doc(api), cfg, server, stop=stop, max_wall_s=60)
     returned_at = time.monotonic()
@@ -96,8 +109,8 @@ def check_run(ctx: Ctx, inp) -> None:
     # (a)
     if "fuzzing" in cfg["phases"] and stop["kind"] == "none":
         for op in api["ops"]:
-            if runs.violates(op, cfg["checks"]):
-                continue
+            if runs.violates(op, cfg["checks"]) or op.get("drop_negative"):
+                continue  # failures and errors are shrunk and replayed
             n = len(by_op_fuzz.get(("GET", op["path"]), []))
             if n >= cfg["max_examples"]:
                 reached.append("max_examples")
@@ -150,7 +163,7 @@ def check_run(ctx: Ctx, inp) -> None:
             if len(keys) != len(set(keys)):
                 dup = next(k for k in keys if keys.count(k) > 1)
                 ctx.disagree("duplicate-request-with-unique-inputs", f"{op_key[0]} {op_key[1]}: the request {dup[1]} was sent {keys.count(dup)} times in the unit phases with unique_inputs", input=inp)
-    ctx.case(nontrivial=inp if reached else None, classes=[f"reached={r}" for r in sorted(set(reached))] + [f"workers={cfg['workers']}", f"stop={stop['kind']}"], sample={"input": inp, "requests": len(record.requests), "reached": sorted(set(reached))})
+    ctx.case(nontrivial=inp if reached else None, classes=[f"reached={r}" for r in sorted(set(reached))] + [f"workers={cfg['workers']}", f"stop={stop['kind']}", "transport-errors" if dropping else "no-transport-errors"], sample={"input": inp, "requests": len(record.requests), "reached": sorted(set(reached))})
 
 
 @st.composite
